@@ -314,7 +314,12 @@ func runC10(t *testing.T, spec RunSpec) *Verdict {
 		// A reference run that crashes or deadlocks is a defect of the fault-free
 		// path; it is reported by the properties that own it (C17/C16), here the
 		// cell cannot be judged.
-		v.fail(P, "infra", "", "", ref.err)
+		if strings.Contains(ref.err, "does not compile") {
+			v.fail(P, "infra", "", "", ref.err)
+		} else {
+			// without any cancellation the wait must return the program's own outcome
+			v.fail(P, refClass(ref.err), "wait-returns-without-cancel", cell+":reference", "fault-free run (no cancellation): "+ref.err)
+		}
 		return v
 	}
 	cancelAt := int64(spec.F("cancel_at", 0))
